@@ -201,8 +201,10 @@ def make_state(rng, cand, d, rip, want_fault=None):
         disp = int(d["disp"], 16)
         if cand.moffs_at is not None and base == "None" and index == "None":
             tgt = (T - seg) & M64
-            code[cand.moffs_at:cand.moffs_at + 8] = tgt.to_bytes(8, "little")
-        elif base == "RIP":
+            nb = ln - cand.moffs_at          # 8 bytes, or 4 with an address-size prefix
+            if nb in (4, 8) and tgt < (1 << (8 * nb)):
+                code[cand.moffs_at:cand.moffs_at + nb] = tgt.to_bytes(nb, "little")
+        elif base in ("RIP", "EIP"):
             if cand.disp_at is not None and cand.disp_size == 4:
                 rel = (T - seg - (rip + ln)) & M64
                 if rel < (1 << 31) or rel >= M64 + 1 - (1 << 31):
@@ -240,7 +242,8 @@ def make_state(rng, cand, d, rip, want_fault=None):
     areas = []
     for start, prot in ((AREA_RW, 3), (AREA_RO, 1), (AREA_NONE, 0), (AREA_RWX, 7), (STACK, 3)):
         areas.append([start, PAGE, prot, {}])
-    case = dict(code=bytes(code), rip=rip, regs=regs, xmm=xmm, flags=flags, fs=fs, gs=gs, areas=areas,
+    code = code[:ln]
+    case = dict(seg=d["seg"], base=d["base"], nb64=int(d["nb64"], 16), code=bytes(code), rip=rip, regs=regs, xmm=xmm, flags=flags, fs=fs, gs=gs, areas=areas,
                 placement=placement, codename=d["code"])
     # windows of random data around interesting addresses
     wins = []
@@ -288,7 +291,7 @@ def hw_line(cid, case):
     for start, ln, prot, wins in case["areas"]:
         if wins:
             buf = bytearray(ln)
-            for w, data in wins.items():
+            for w, data in sorted(wins.items()):
                 buf[w - start:w - start + len(data)] = data
             dh = bytes(buf).hex()
         else:
